@@ -465,6 +465,9 @@ TIERS = {
                    MaxAtoms=9, Anchors="AnchQ", Decoys="DecoyQ", DecoyRots="RotsQ", Shifts="ShiftQ1"),
               dict(CellNames='{"ort", "trineg"}', PatNames='{"P2h", "P3lin", "P3sca"}', MaxCopies=2, MaxDecoys=0,
                    MaxAtoms=8, Anchors="AnchB", Decoys="DecoyQ", DecoyRots="RotsQ", Shifts="ShiftQ1", PlantRots="RotsQ"),
+              # single-atom site patterns (the typical element substitution), moved away from the origin by the representations
+              dict(CellNames='{"ort", "trineg"}', PatNames='{"P1"}', MaxCopies=2, MaxDecoys=0,
+                   MaxAtoms=6, Anchors="AnchB", Decoys="DecoyQ", DecoyRots="RotsQ", Shifts="ShiftQ1", PlantRots="RotsQ"),
               # mirror-image decoys of the shallow chiral pattern in big cells (coordinates far from the origin)
               dict(CellNames='{"big", "bigtri"}', PatNames='{"P4flat"}', MaxCopies=1, MaxDecoys=1, MaxAtoms=8,
                    Anchors="AnchB", Decoys="DecoyQ", DecoyRots="RotsQ", PlantRots="RotsQ", Shifts="ShiftQ1", Kinds='{"mirror"}')],
